@@ -15,7 +15,6 @@ THEOREMS = [
     "InstGen.merge_preserves_multiset",
     "InstGen.decode_instance_ok",
     "InstGen.decode_succeeds",
-    "InstGen.decode_needs_vector",
     "InstGen.decode_deterministic",
     "InstGen.errors_in_unit_interval",
     "InstGen.errors_template_zero",
